@@ -13,6 +13,7 @@ import (
 	"polysim/chain"
 	"polysim/engines/e1"
 	"polysim/engines/lc"
+	"polysim/kernel"
 )
 
 type tmDriver struct{ fam *famSpec }
@@ -28,6 +29,12 @@ type tmChain struct {
 	alt    *simChain // an unrelated chain of the same family (variant 1 trust root)
 	cursor int64     // height of the last header handed out
 	at     uint32    // poly height when cursor was last reset
+	// degenerate != 0: this chain's own trust root (variants 0 and 2) is an unusual header that
+	// SyncGenesisHeader nevertheless accepts (it validates nothing on write): 1 = no
+	// next-validators hash, 2 = a 20-byte next-validators hash, 3 = no validators hash (the
+	// header hash, hence the stored block hash, is then empty). Header syncs cannot follow such
+	// a root; re-installation attempts must still fail and write nothing.
+	degenerate int
 }
 
 func (d tmDriver) NewChain(h *e1.Harness, chainID uint64, seed uint64) (lc.Chain, error) {
@@ -36,7 +43,11 @@ func (d tmDriver) NewChain(h *e1.Harness, chainID uint64, seed uint64) (lc.Chain
 		return nil, err
 	}
 	alt := newSimChain(d.fam, seed^0x5a5a5a5a, chainID, chainID+1000, 2, 0, false)
-	return &tmChain{h: h, c: c, alt: alt, cursor: c.sw[0]}, nil
+	t := &tmChain{h: h, c: c, alt: alt, cursor: c.sw[0]}
+	if m := kernel.Derive(seed, "lctm-degenerate-root", chainID) % 6; m >= 3 {
+		t.degenerate = int(m) - 2
+	}
+	return t, nil
 }
 
 func (t *tmChain) genesisTx(bz []byte) *types.Transaction {
@@ -48,13 +59,34 @@ func (t *tmChain) GenesisTx(variant int) *types.Transaction {
 	case 1: // another chain's trust root: other keys, other height, other chain id
 		return t.genesisTx(t.alt.honest(t.alt.sw[0]).bytes)
 	case 2: // the same header, re-encoded with a different (equally valid) commit: only a winning subset signs
-		f := t.c.honestFields(t.c.sw[0])
-		order := t.c.b.canonOrder(t.c.setAt(t.c.sw[0]), f.version)
-		m, _ := pickSubset(order, 0, 0)
-		a := t.c.build(&artefactSpec{f: f, order: order, votes: votesFromMask(len(order), m), round: 1, appVer: 0, desc: "trust root, other commit"})
-		return t.genesisTx(a.bytes)
+		return t.genesisTx(t.root(true))
 	}
-	return t.genesisTx(t.c.honest(t.c.sw[0]).bytes)
+	return t.genesisTx(t.root(false))
+}
+
+// root encodes this chain's trust-root header (otherCommit: signed by a minimal winning
+// subset in round 1 instead of by everybody in round 0).
+func (t *tmChain) root(otherCommit bool) []byte {
+	c := t.c
+	if t.degenerate == 0 && !otherCommit {
+		return c.honest(c.sw[0]).bytes
+	}
+	f := c.honestFields(c.sw[0])
+	switch t.degenerate {
+	case 1:
+		f.nextHash = nil
+	case 2:
+		f.nextHash = f.nextHash[:20]
+	case 3:
+		f.valsHash = nil
+	}
+	order := c.b.canonOrder(c.setAt(c.sw[0]), f.version)
+	sp := &artefactSpec{f: f, order: order, votes: votesFromMask(len(order), 1<<uint(len(order))-1), appVer: 0, desc: fmt.Sprintf("trust root (degenerate=%d)", t.degenerate)}
+	if otherCommit {
+		m, _ := pickSubset(order, 0, 0)
+		sp.votes, sp.round = votesFromMask(len(order), m), 1
+	}
+	return c.build(sp).bytes
 }
 
 func (t *tmChain) NextHeaders(k int) *types.Transaction {
